@@ -487,9 +487,9 @@ impl<const N: usize> Ex<N> {
         let mut out = OpOut::new(cls::RET);
         let len = self.models[x].len();
         let k = st.vals.len();
-        out.argclass = lenclass(k, N - len, N) * 6 + (st.b as u64 % 6);
+        out.argclass = lenclass(k, N - len, N) * 7 + (st.b as u64 % 7);
         out.nontrivial = k > 0;
-        let mode = st.b % 6;
+        let mode = st.b % 7;
         if mode == 3 {
             // extend(slice.iter().cloned())
             let src: Vec<Tracked> = st.vals.iter().map(|v| Tracked::new(*v % 3, Origin::Harness)).collect();
@@ -516,6 +516,7 @@ impl<const N: usize> Ex<N> {
         let it = SrcIter::new(&st.vals, match mode {
             4 => 3,
             5 => 4,
+            6 => 5,
             m => m,
         });
         let made = it.made.clone();
@@ -629,6 +630,8 @@ impl Iterator for SrcIter {
             1 | 3 => (0, None),
             2 => (rem + 5, Some(rem + 5)),
             4 => (0, Some(usize::MAX)),
+            // "exact" but too small: more items follow than the hint admits
+            5 => (rem / 2, Some(rem / 2)),
             _ => (rem, Some(rem)),
         }
     }
